@@ -11,3 +11,7 @@ claim("C01", "Coq proof over R (order laws of exp-membership, bisection invarian
       "Theorems C01_strengths, C01_local_connectivity, C01_bandwidth (positive, bounded, floored, tolerance-calibrated when the search stops), C01_psum (monotone total), C01_scale hold for all rows, k, local_connectivity and scales; "
       "the same Gallina terms run in binary64 on generated kNN tables (ties, duplicates, inf entries, scales 1e-4..1e6) and must reproduce rho and every strength of the implementation; the float64 oracle states the property (incl. calibration to 1e-3 and scale invariance) on the implementation.",
       STD_NOTE + " Convergence of the 64-step search to the tolerance band is observed (oracle), not proved; rows whose rho would be read from an infinite entry are checked by the oracle only.", "DESIGN.md §6 C01")
+claim("C07", "Coq proof over R/Z (gradient-coefficient identities via Rpower, clip bound, linear decay, frame by induction over edges and epochs, visit-count invariant, generator range) + vm_compute correspondence of the epoch model against the jitted single-epoch kernel and of the schedule against optimize_layout_euclidean",
+      "Theorems C07_step/C07_signs (coefficients are the UMAP gradient terms), C07_clip (every move <= 4 alpha), C07_alpha, C07_frame (reference layout never written when move_other=false, all graphs/epochs), C07_due, C07_count/C07_weak/C07_period (visits = floor((N-1)/p), p = w_max/w; weak edges never used and pruned), C07_negative_vertex. "
+      "The same model is executed in binary64/Z against the real kernel epoch by epoch (RNG states and draw counts exact, clocks 1e-9, positions 1e-3), whole runs are replayed under the model-computed schedule and must be bit-identical; a float64 textbook update is the independent oracle.",
+      STD_NOTE + " The visit-count theorem is about the isolated clock recursion `visits` (same expression as edge_step's clock update); optimize_layout_generic, the parallel kernel and the parametric replication are not modelled.", "DESIGN.md §6 C07")
